@@ -3,6 +3,7 @@
 //! usage: harness <property> [--seed N] [--tier quick|thorough] [--shard i/n] [--out FILE] [extra…]
 mod common;
 mod c13;
+mod c04;
 mod c05;
 mod c19;
 mod c15;
@@ -13,6 +14,9 @@ mod c16;
 mod pkggen;
 
 use common::*;
+
+#[global_allocator]
+static GLOBAL: c04::Counting = c04::Counting;
 use std::io::{BufWriter, Write};
 
 /// evaluate one request line against the real code; a panic becomes the observation `panic`
@@ -25,6 +29,7 @@ pub fn eval_request(req: &str) -> String {
     let r = guarded(std::panic::AssertUnwindSafe(|| {
         None // one line per property module
             .or_else(|| c13::eval(op, a))
+            .or_else(|| c04::eval(op, a))
             .or_else(|| c05::eval(op, a))
             .or_else(|| c19::eval(op, a))
             .or_else(|| c15::eval(op, a))
@@ -90,6 +95,7 @@ fn main() {
             }
         }
         "C13" => c13::gen(&mut ctx),
+        "C04" => c04::gen(&mut ctx),
         "C05" => c05::gen(&mut ctx),
         "C19" => c19::gen(&mut ctx),
         "C15" => c15::gen(&mut ctx),
